@@ -77,8 +77,23 @@ def run(ctx):
             return 'ok', athlib.check_performance_for_discipline(ev, t, gender=g_, errorKlass=EK, prec=prec)
         except EK: return 'refused', None
         except Exception as e: return 'leak:' + type(e).__name__, None
-    for i in range(n):
-        ev = rng.choice(events); t = gen_text(rng); g_ = rng.choice(['all', 'm', 'f', 'M']); prec = rng.choice([None, None, None, 0, 1, 2, 3])
+    def all_requests():
+        for _ in range(n):
+            yield rng.choice(events), gen_text(rng), rng.choice(['all', 'm', 'f', 'M']), rng.choice([None, None, None, 0, 1, 2, 3])
+        # seams: texts just below the points where the printed form changes (10 s, 60 s, 100 s, an hour, ten hours), for every event and precision
+        SEAMS = ['9.994', '9.995', '9.996', '9.9999', '59.994', '59.995', '59.996', '59.999', '99.99', '99.994', '99.995', '99.996', '99.999', '99,9999',
+                 '0:59.995', '0:59.999', '1:39.996', '1:39.999', '9:59.995', '9:59.999', '59:59.99', '59:59.995', '59:59.996', '59:59.999',
+                 '0:59:59.996', '1:59:59.995', '1:59:59.999', '9:59:59.996', '9:59:59.999', '2:16:39.99', '2:16:40.01']
+        for ev in events:
+            for t in SEAMS:
+                for prec in (None, 0, 1, 2, 3):
+                    yield ev, t, 'all', prec
+        # long road times with decimals and a precision option (h:mm:ss.xx of two hours and more)
+        for _ in range(6000 if ctx.quick() else 60000):
+            ev = rng.choice(['MAR', 'HM', '50K', '100K', '20KW', '10K', '5M', '10M', '30K', '24HR'])
+            t = '%d:%02d:%02d.%s' % (rng.randint(1, 11), rng.randint(0, 59), rng.randint(0, 59), ''.join(rng.choice('0123456789') for _ in range(rng.choice([1, 2, 2, 3]))))
+            yield ev, t, 'all', rng.choice([1, 2, 2, 3, None])
+    for i, (ev, t, g_, prec) in enumerate(all_requests()):
         st, r = chk(ev, t, g_, prec)
         stats[st.split(':')[0]] += 1
         args = [ev, t, g_, prec]
@@ -138,7 +153,7 @@ def run(ctx):
                 parts = r.split(':')
                 sec = float(parts[-1])
                 if sec >= 60:
-                    fail('seconds below 60', r, 'seconds >= 60 without a minutes field (plain seconds up to 99.99)' if len(parts) == 1 else 'seconds >= 60')
+                    fail('seconds below 60', r, 'seconds >= 60 without a minutes field (plain seconds up to 99.99)' if len(parts) == 1 and sec < 100 else 'seconds >= 60')
                 if len(parts) == 3 and int(parts[1]) >= 60: fail('minutes below 60 under hours', r, 'minutes >= 60 under hours')
                 dist = mdist.get(ev)
                 dur = athlib.parse_hms(r)
@@ -155,7 +170,7 @@ def run(ctx):
             except Exception: pass
             timed = not (ev in codes.FIELD_EVENTS or codes.PAT_FIELD.match(ev) or ev.upper() in codes.MULTI_EVENTS)
             why = 'returned value not accepted unchanged'
-            if timed and prec is not None: why += ' (formatted with a precision option)'
+            if timed and prec is not None and '.' not in r and st2 != 'ok': why += ' (formatted with a precision option)'
             elif timed and dist and dist >= 800 and ':' not in r: why += ' (plain seconds for a distance of 800 m or more are re-read as minutes)'
             elif timed and dist and dist <= 200 and ':' in r and '.' not in r: why += ' (m:ss for a sprint is re-read as seconds.hundredths)'
             elif not timed and re.match(r'^\d{3,}\.\d\d$', r): why += ' (field result of 100 m or more: PAT_PERF admits two integer digits)'
